@@ -6,6 +6,7 @@
 #![allow(dead_code)]
 mod codec;
 mod common;
+mod linkmode;
 mod ost;
 
 use std::io::BufRead;
@@ -74,12 +75,19 @@ fn main() {
                         continue;
                     }
                 };
-                match mode.as_str() {
+                let m = mode.clone();
+                let res = std::panic::catch_unwind(std::panic::AssertUnwindSafe(|| match m.as_str() {
                     "ost" => run_paused(ost::run_scenario(&sc)),
+                    "link" => run_paused(linkmode::run_link(&sc)),
                     _ => {
-                        eprintln!("unknown mode {mode}");
+                        eprintln!("unknown mode {m}");
                         std::process::exit(2);
                     }
+                }));
+                if res.is_err() {
+                    // a panic on the driver's own task (layer probes run there): record it as data
+                    let p = common::take_panic().unwrap_or(serde_json::json!({"msg":"?","loc":"?"}));
+                    common::emit(serde_json::json!({"k":"crash","panic":p}));
                 }
                 common::tick();
             }
